@@ -10,7 +10,6 @@ ground-truth session, the scanner's result / result-tagged log records.  Nothing
 
 from __future__ import annotations
 
-import asyncio
 import re
 from typing import Any
 
@@ -20,11 +19,14 @@ from gallia.services.uds.server import RandomUDSServer
 
 from harness import vloop
 from harness.c10_stack import (
-    LEN, NEG, NONE, POS, SNS, SNSIAS, TARGET, IdentServer, ModelServer, RecRandomServer, ask_directly,
-    capture_results, class_answer, class_impl, classify, ident_decode, serving,
+    POS, SNS, TARGET, IdentServer, ModelServer, RecRandomServer, ask_directly, capture_results, class_answer,
+    class_impl, classify, serving,
 )
 
-PROBE_LENS = [1, 2, 3, 5]  # documented probe payload lengths of the service scan (docs/uds/scan_modes.md)
+# probe payload lengths the property record names ("probe loop over sid 0..0xFF with payload lengths 1,2,3,5");
+# the payload is all zeros as documented (docs/uds/scan_modes.md: "the scanner automatically appends \\x00 bytes").
+# They parameterise the ECU MODEL (answer tables); the contract tolerates additional probes of other lengths.
+PROBE_LENS = [1, 2, 3, 5]
 ABSENT_ROW = SNS + 8 * SNS + 64 * SNS + 512 * SNS  # row code of an unimplemented service
 
 
@@ -258,5 +260,4 @@ def run_case(case: dict[str, Any], mutant: str | None = None) -> dict[str, Any]:
     return t
 
 
-__all__ = ["run_case", "run_svc", "run_ident", "PROBE_LENS", "iso_request", "ident_decode",
-           "LEN", "NEG", "NONE", "POS", "SNS", "SNSIAS", "asyncio"]
+__all__ = ["run_case", "run_svc", "run_ident", "PROBE_LENS", "iso_request"]
